@@ -14,7 +14,11 @@ import (
 	"sync"
 	"sync/atomic"
 	"testing"
+	"time"
 
+	defn "github.com/named-data/ndnd/fw/defn"
+	"github.com/named-data/ndnd/fw/dispatch"
+	"github.com/named-data/ndnd/fw/face"
 	"github.com/named-data/ndnd/fw/table"
 	enc "github.com/named-data/ndnd/std/encoding"
 	"verif/harness/common"
@@ -157,6 +161,10 @@ func gen(g *common.Gen) {
 		g.StatN("goroutines", ng)
 		if writers >= 2 {
 			g.Stat("histories-with-2+-writers")
+		}
+		for k := r.Range(2, 5); k > 0; k-- {
+			g.Op("faces,%d", r.Range(2, 8))
+			g.Stat("op-face-table-round")
 		}
 		g.Op("par %s", strings.Join(threads, " | "))
 		// final observation: the whole RIB, strategy table, FIB and a lookup per universe name
@@ -310,6 +318,47 @@ func exec(op string) string {
 	if fib == nil {
 		return "skip"
 	}
+	if strings.HasPrefix(op, "faces,") {
+		// K goroutines register one new face each in the global face table at the same moment;
+		// every face must get its own identifier and be found under it in both tables
+		k := common.Atoi(op[6:])
+		faces := make([]*face.NDNLPLinkService, k)
+		var wg sync.WaitGroup
+		start := make(chan struct{})
+		for i := 0; i < k; i++ {
+			wg.Add(1)
+			go func(i int) {
+				defer wg.Done()
+				ls := face.MakeNDNLPLinkService(face.VerifNewTransport(1500, defn.NonLocal), face.MakeNDNLPLinkServiceOptions())
+				<-start
+				face.FaceTable.Add(ls)
+				faces[i] = ls
+			}(i)
+		}
+		close(start)
+		wg.Wait()
+		distinct, consistent := true, true
+		seen := map[uint64]bool{}
+		for _, ls := range faces {
+			id := ls.FaceID()
+			if seen[id] {
+				distinct = false
+			}
+			seen[id] = true
+			if face.FaceTable.Get(id) != face.LinkService(ls) || dispatch.GetFace(id) != dispatch.Face(ls) {
+				consistent = false
+			}
+		}
+		for id := range seen {
+			face.FaceTable.Remove(id)
+		}
+		for id := range seen {
+			if face.FaceTable.Get(id) != nil || dispatch.GetFace(id) != nil {
+				consistent = false
+			}
+		}
+		return fmt.Sprintf("n=%d distinct=%v consistent=%v", k, distinct, consistent)
+	}
 	if strings.HasPrefix(op, "par ") {
 		threads := strings.Split(op[4:], " | ")
 		type rec struct {
@@ -338,7 +387,16 @@ func exec(op string) string {
 			}(t, spec)
 		}
 		close(start)
-		wg.Wait()
+		// watchdog: operations on in-memory tables finish in microseconds; goroutines still blocked
+		// after 20 s are deadlocked (e.g. a reader re-entering the RWMutex behind a queued writer)
+		done := make(chan struct{})
+		go func() { wg.Wait(); close(done) }()
+		select {
+		case <-done:
+		case <-time.After(20 * time.Second):
+			fib, rib = nil, nil // the tables of this history are wedged: nothing more to observe
+			return "CRASH TIMEOUT deadlock: goroutines of the concurrent block are still blocked after 20 s"
+		}
 		var parts []string
 		for _, rs := range results {
 			for _, r := range rs {
